@@ -69,6 +69,9 @@ def cases(tier):
             for p in ((0.5, 0.1) if q else PROBS):
                 out.append({"kind": "inverse", "k1": k1, "k2": k2, "p": p, "native": 0.5, "_weight": 3})
             out.append({"kind": "inverse", "k1": k1, "k2": k2, "p": 0.9, "native": 0.1, "_weight": 3})
+            # a design curve given for 10 % queried at the default 50 %
+            out.append({"kind": "inverse", "k1": k1, "k2": k2, "p": 0.5, "native": 0.1, "_weight": 3})
+            out.append({"kind": "monotone", "k1": k1, "k2": k2, "native": 0.1, "_weight": 4})
             out.append({"kind": "monotone", "k1": k1, "k2": k2, "_weight": 4})
             out.append({"kind": "broadcast", "k1": k1, "k2": k2, "_weight": 4})
         out.append({"kind": "miner", "k1": k1, "_weight": 2})
@@ -222,7 +225,7 @@ def run(ctx, case):
         return out if not ctx.sym else None
 
     if kind == "monotone":
-        wc_s, d = _curve(ctx, k1, k2)
+        wc_s, d = _curve(ctx, k1, k2, native=case.get("native", 0.5))
         S1, S2 = _bounded(ctx, "S1"), _bounded(ctx, "S2")
         ctx.assume(S1 <= S2)
         N1, N2 = _scalar(wc_s.woehler.cycles(S1)), _scalar(wc_s.woehler.cycles(S2))
@@ -234,14 +237,15 @@ def run(ctx, case):
             ok = _lg(N1) >= _lg(N2) - TOLE
         ctx.claim(ok, "non_increasing", (N1, N2))
         # allowable cycles grow with the failure probability
-        Na, Nb = _scalar(wc_s.woehler.cycles(S1, 0.1)), _scalar(wc_s.woehler.cycles(S1, 0.9))
-        if _isinf(Nb):
-            ok = True
-        elif _isinf(Na):
-            ok = False
-        else:
-            ok = _lg(Na) <= _lg(Nb) + TOLE
-        ctx.claim(ok, "grow_with_probability", (Na, Nb))
+        Ns = [_scalar(wc_s.woehler.cycles(S1, 0.1)), _scalar(wc_s.woehler.cycles(S1)), _scalar(wc_s.woehler.cycles(S1, 0.9))]
+        for Na, Nb in zip(Ns[:-1], Ns[1:]):      # 10 % <= default (50 %) <= 90 %
+            if _isinf(Nb):
+                ok = True
+            elif _isinf(Na):
+                ok = False
+            else:
+                ok = _lg(Na) <= _lg(Nb) + TOLE
+            ctx.claim(ok, "grow_with_probability", (Na, Nb))
         return None
 
     if kind == "broadcast":
